@@ -46,7 +46,9 @@ def has_effects(nodes):
 class Loops:
     def __init__(self, engine):
         self.engine = engine
-        self.invariants = {}     # (label, ordinal) -> fn(ex, env, i, phase) -> [(name, props, formula)]
+        self.cur_mod_names = {}
+        self.invariants = {}     # (label, ordinal) -> fn(ex, env, i) -> [(name, props, formula)]
+        self.axioms = {}         # (label, ordinal) -> fn(ex, env, i) -> [formula]  (ghost definitions, assumed only)
 
     def loop_key(self, ex, node):
         fi = ex.task.finfo
@@ -160,8 +162,9 @@ class Loops:
     # -- invariants ----------------------------------------------------------------------------
     def collect_invs(self, ex, key, env, i, extra=None):
         invs = []
+        names = self.cur_mod_names.get(key, ())
         for fam in ex.families:
-            invs.extend(fam.loop_invariants(ex))
+            invs.extend(fam.loop_invariants(ex, env, names))
         fn = self.invariants.get(key)
         if fn is not None:
             invs.extend(fn(ex, env, i))
@@ -176,6 +179,10 @@ class Loops:
     def assume_invs(self, ex, key, env, i, extra=None):
         for name, props, f in self.collect_invs(ex, key, env, i, extra):
             ex.assume(f)
+        ax = self.axioms.get(key)
+        if ax is not None:
+            for f in ax(ex, env, i):
+                ex.assume(f)
 
     def havoc_for_body(self, ex, env, body_nodes, names):
         if has_effects(body_nodes):
@@ -205,6 +212,8 @@ class Loops:
 
     # -- the generic loop ------------------------------------------------------------------------------
     def run_loop(self, ex, key, env, desc, bind, body, body_nodes, mod_names, extra_inv=None, on_exit=None):
+        self.cur_mod_names[key] = [n for n in mod_names if env.has(n)]
+        ex.event('loop_enter', key)
         self.check_invs(ex, key, env, z3.IntVal(0), 'entry', extra_inv)
         pre_existing = [n for n in mod_names if env.has(n)]
         if ex.branch(ex.fresh_bool('loop_iter'), 'loop-iter'):
@@ -213,6 +222,7 @@ class Loops:
             ex.assume(i >= 0)
             self.assume_invs(ex, key, env, i, extra_inv)
             ex.assume(self.cond(ex, desc, i))
+            ex.event('loop_iter', key, i)
             bind(self.elem(ex, desc, i), i)
             try:
                 body(i)
@@ -228,6 +238,7 @@ class Loops:
             ex.assume(i >= 0)
             self.assume_invs(ex, key, env, i, extra_inv)
             ex.assume(z3.Not(self.cond(ex, desc, i)))
+            ex.event('loop_exit', key, i)
             if on_exit:
                 on_exit(i)
 
@@ -262,6 +273,7 @@ class Loops:
         if st.orelse:
             raise Unsupported('while-else')
         names = assigned_names(st.body)
+        self.cur_mod_names[key] = [n for n in names if env.has(n)]
         self.check_invs(ex, key, env, z3.IntVal(0), 'entry')
         pre_existing = [n for n in names if env.has(n)]
         const_true = isinstance(st.test, ast.Constant) and st.test.value is True
